@@ -34,9 +34,11 @@ MANIFEST = dict(
          "C16_tlv_terminates - fuel |s|+1 suffices, any larger fuel gives the same result, at most |s| triplets (C16_tlv_needs_empty_rejected: the hypothesis on int('') is necessary); "
          "C16_tlv_roundtrip_pyint - WHATEVER text generate_tlv returns (any mapping, widths, paddings - no hypothesis on len_padding any more) parses back to one "
          "(padded tag, len(value), value) per entry, in order (C16_tlv_roundtrip: the same for every int() that reads the fields padded with an accepted padding); "
-         "C16_tlv_accepts - a text is returned iff every tag and length fits its field and len_padding is '0' or an ASCII blank; C16_tlv_refuses - otherwise, and only then, generation "
-         "fails, with AssertionError; C16_tlv_refuses_bad_padding - a len_padding that is neither '0' nor an ASCII blank is refused for every mapping (fix C16-c; C16_tlv_badpad_refused: the "
-         "former witness 'x' is refused, and the text the unfixed code wrote does not parse back); "
+         "C16_tlv_accepts - a text is returned iff every tag and length fits its field and len_padding passes the probe int(pad+pad+'1') == 1 of fix C16-c; "
+         "C16_tlv_padding_probe_exact - the probe holds exactly for '0' and the characters int() strips (no working padding is refused: \\xa0, \\x85, U+2003 pass; signs, '_', other digits, \\x1c..\\x1f, letters fail); "
+         "C16_tlv_refuses - otherwise, and only then, generation fails, with AssertionError; C16_tlv_refuses_bad_padding - a len_padding failing the probe is refused for every mapping "
+         "(C16_tlv_badpad_refused: the former witness 'x' is refused, and the text the unfixed code wrote does not parse back); paddings outside the int() model's scope "
+         "(not Latin-1, not a listed blank - e.g. the decimal zero U+0660, which int() reads through) are answered `unsupported` by the model and covered by the evaluator only; "
          "C16_pyint_reads_padded / C16_pyint_reads_accepted / C16_pyint_rejects_empty - the int() model reads zero/blank padded decimals back; C16_fwf_roundtrip - for a layout with till = offset + size, pairwise "
          "disjoint columns and a non-empty filler, parse_fwf_row returns one entry per column and every column written from the record or its mapping parses back to str(value) padded/truncated to the column size "
          "(C16_fwf_cell_size, C16_fwf_absent_is_filler: unwritten columns read back as filler); "
@@ -46,12 +48,14 @@ MANIFEST = dict(
          "C16_fwf_rejected_midfile (fix C16-b). "
          "Differential only (streams tlv.int, tlv.parse, tlv.gen, fwf.parse, fwf.gen, fwf.load): the models themselves (int() on Latin-1 + listed blanks, slices, ljust/rjust/zfill, str() of str/int/bool/None), "
          "load_lines/file layer, eval'd validation and mapping expressions (theorems take them as arbitrary total functions; a fixed menu of 8 + 4 expressions is compared).",
-    note="model follows the tree with fixes C16-a (negative TLV length), C16-b (failed_rows.append tuple) and C16-c (generate_tlv refuses a len_padding other than '0' / ASCII blank) applied; "
+    note="model follows the tree with fixes C16-a (negative TLV length), C16-b (failed_rows.append tuple) and C16-c (generate_tlv refuses a len_padding that int() does not read through) applied; "
          "blank lines of a fixed-width file are skipped by load_fwf (neither accepted nor rejected) - the reading of 'every row' is 'every non-blank line'",
     design_ref="5/C16",
 )
 
-GOOD_LP = "0 \t\n\r\x0b\x0c"  # the paddings a caller may rely on: '0' and the ASCII blanks (what generate_tlv accepts since fix C16-c)
+# the paddings a caller may rely on: '0' and every character int() strips (the table Tlv.isIntSpace of the model, written out
+# here independently of the probe in generate_tlv; \x1c..\x1f are str.isspace() but int() does not strip them)
+GOOD_LP = "0 \t\n\x0b\x0c\r\x85\xa0\u1680\u2000\u2001\u2002\u2003\u2004\u2005\u2006\u2007\u2008\u2009\u200a\u2028\u2029\u202f\u205f\u3000"
 
 # ---------------------------------------------------------------------------
 # translator hook (A.1): regenerate Gen/TlvPy.lean from the source under test
@@ -313,7 +317,7 @@ def fwf_load_canon(c):
 # ---------------------------------------------------------------------------
 TAGS = ["", "A", "B", "AB", "01", "Tag", "T9 ", "é", "-1", "abcd", "abcde"]
 PADS_T = [" ", " ", "_", "0", ".", "é"]
-PADS_L = ["0", "0", "0", " ", " ", "\t", "\n", "\r", "\x0b", "\x0c", "\xa0", "\u2003", "\x1c", "\x85", "x", "-", "+", "1", "_", "\u0660"]
+PADS_L = ["0", "0", "0", " ", " ", "\t", "\n", "\x0c", "\xa0", "\u2003", "\x85", "\u3000", "\x1c", "\x1f", "x", "-", "+", "1", "_", "9", "\u0660", "\uff10", "\uff11"]
 
 
 def gen_value(rng):
@@ -487,8 +491,8 @@ def fits(c):
 
 def check_tlv_roundtrip(c):
     """generate/parse round-trip, or the generator refuses: whatever text comes out parses back; an entry that does not
-    fit is refused; a mapping that fits is not refused when len_padding is '0' or an ASCII blank (any other padding may
-    be refused - it is, since fix C16-c - but must never yield text that does not parse back)"""
+    fit is refused; a mapping that fits is not refused when len_padding is '0' or a character int() strips (GOOD_LP); any
+    other padding may be refused (with AssertionError) but must never yield text that does not parse back"""
     parse_tlv, gen = impl()[0], impl()[1]
     d = dict((k, v) for k, v in c["d"])
     r = core.call(gen, d, c["tl"], c["ll"], c["tp"], c["lp"])
@@ -500,7 +504,7 @@ def check_tlv_roundtrip(c):
         return None
     if r[0] != "ok":
         if c["lp"] in GOOD_LP:
-            return {"what": "every entry fits and the padding is '0' or an ASCII blank but generation raised", "raised": r[1]}
+            return {"what": "every entry fits and the padding is '0' or a blank int() strips but generation raised", "raised": r[1]}
         if r[1] != "AssertionError":
             return {"what": "refusal with an unexpected class", "raised": r[1]}
         return None
@@ -800,7 +804,7 @@ def _run(ctx):
 
     # ---- C1: TLV round trip / refusal
     ctx.evaluate("tlv_roundtrip", gcases, check_tlv_roundtrip, nontrivial=lambda c: len(c["d"]) > 0)
-    ctx.extra["tlv_roundtrip_paddings"] = {"accepted ('0' / ASCII blank)": sum(1 for c in gcases if c["lp"] in GOOD_LP), "refused (anything else)": sum(1 for c in gcases if c["lp"] not in GOOD_LP)}
+    ctx.extra["tlv_roundtrip_paddings"] = {"must be accepted ('0' / a blank int() strips)": sum(1 for c in gcases if c["lp"] in GOOD_LP), "anything else (refused, or round-trips)": sum(1 for c in gcases if c["lp"] not in GOOD_LP)}
     # ---- C2: termination and tiling on arbitrary input
     ctx.evaluate("tlv_tiling", pcases, check_tlv_tiling, nontrivial=lambda c: len(c["s"]) > c["tl"] + c["ll"])
     ctx.evaluate("tlv_tiling/exhaustive", ex, check_tlv_tiling, nontrivial=lambda c: len(c["s"]) > c["tl"] + c["ll"])
